@@ -394,11 +394,7 @@ def State.resolve (st : State) : CDecl → Resolved
       (match st.findWorker res with
        | some _ =>
            let busy := (st.busyRefs res).filterMap (fun (b : BusyRef) => (st.findTask b.task).map (fun t => (b, t)))
-           if busy.isEmpty then
-             -- the masks read loop variables that were never bound (UnboundLocalError); without masks the empty
-             -- conjunction is asserted and the "not assigned" AssertionError follows
-             if start > 0 || end_.isSome then .raises .other []
-             else .raisesWith .assertion (.periodicallyInterrupted busy ivs period start offset end_)
+           if busy.isEmpty then .raises .assertion []     -- "not assigned"
            else if ivs.any (fun iv => iv.2 > period) then .raises .assertion []
            else .body (.periodicallyInterrupted busy ivs period start offset end_) []
        | none => match st.findCumul res with
